@@ -250,7 +250,10 @@ impl MachineState {
             (HeapCellValueTag::Cons, ptr) => {
                 match ptr.get_tag() {
                     ArenaHeaderTag::Rational | ArenaHeaderTag::Integer => {
-                        c
+                        // big numbers are keyed by their arena address in the constant
+                        // index, so equal values need not hit the same key: try every
+                        // clause, as for a variable, and let unification compare by value
+                        v
                     }
                     _ => {
                         IndexingCodePtr::Fail
